@@ -15,6 +15,7 @@
 (*           "imm" at once | "pulled" after its initial pull | "ininfo"     *)
 (*           once its input metadata is known                               *)
 (*   off     start offset of the component (0 = composition start)          *)
+(*   refine  with data = "imm": supplies a guess until its own pull is done  *)
 (* cfg.order listing order.                                                 *)
 (* s.st[c] "init" | "connecting" | "idle" | "connected";  flags per         *)
 (* component: inX (input metadata exchanged), inD (initial data pulled),    *)
@@ -33,6 +34,7 @@ S0(cfg) ==
    outX |-> [c \in Comps(cfg) |-> FALSE], outD |-> [c \in Comps(cfg) |-> FALSE],
    inC  |-> [c \in Comps(cfg) |-> FALSE], outC |-> [c \in Comps(cfg) |-> FALSE],
    dC   |-> [c \in Comps(cfg) |-> FALSE],
+   dV   |-> [c \in Comps(cfg) |-> "none"], pubV |-> [c \in Comps(cfg) |-> "none"],
    pubs |-> [c \in Comps(cfg) |-> <<>>]]
 
 DataCond(k, s, c) ==
@@ -48,6 +50,8 @@ Complete(cfg, s, c) ==
 
 (* time of the initial publications: composition start, and the own start  *)
 (* when later (ConnectHelper._push_data)                                   *)
+(* the value a consumer pulls initially from component p *)
+InitTok(cfg, s, p) == 1000 * p + cfg.comps[p].off + (IF s.pubV[p] = "guess" THEN 500 ELSE 0)
 InitialPubs(k) == IF k.off > 0 THEN <<0, k.off>> ELSE <<0>>
 
 (* one call of Component.connect for component c; returns [s, done]        *)
@@ -56,7 +60,12 @@ Call(cfg, s, c) ==
   IF s.st[c] = "init" THEN [s |-> [s EXCEPT !.st[c] = "connecting"], done |-> TRUE]
   ELSE
     LET \* the component's _connect offers its data as soon as its condition holds
-        dC1   == s.dC[c] \/ (k.hasout /\ ~s.outD[c] /\ DataCond(k, s, c))
+        \* (refine: a first guess before the own initial pull is done, the final value after it;
+        \* a value supplied again replaces the cached one)
+        supplied == IF k.hasout /\ ~s.outD[c] /\ DataCond(k, s, c)
+                    THEN (IF k.refine /\ k.hasin /\ k.pull /\ ~s.inD[c] THEN "guess" ELSE "final") ELSE "none"
+        dV1   == IF supplied # "none" THEN supplied ELSE s.dV[c]
+        dC1   == s.dC[c] \/ supplied # "none"
         \* transfer rules, evaluated on what earlier calls achieved
         inC1  == s.inC[c] \/ (k.hasin /\ ~k.inown /\ ~s.inX[c] /\ k.hasout /\ s.outX[c])
         \* (oprov: the component itself supplies the output metadata with every call)
@@ -74,7 +83,8 @@ Call(cfg, s, c) ==
         outD1 == s.outD[c] \/ (k.hasout /\ dC1 /\ outP1 /\ outX1)
         dOutD == outD1 /\ ~s.outD[c]
         sB    == [sA EXCEPT !.outX[c] = outX1, !.outP[c] = outP1, !.outD[c] = outD1,
-                            !.pubs[c] = IF dOutD THEN InitialPubs(k) ELSE @]
+                            !.pubs[c] = IF dOutD THEN InitialPubs(k) ELSE @,
+                            !.dV[c] = dV1, !.pubV[c] = IF dOutD THEN dV1 ELSE @]
         \* initial pull
         inD1  == s.inD[c] \/ (k.hasin /\ k.pull /\ inX1 /\ sB.outD[k.src])
         dInD  == inD1 /\ ~s.inD[c]
